@@ -665,8 +665,9 @@ def ctor_scenario(c, user_file):
                'core': {'length': L, 'pitch': round(max(dsn['duct_ftf']) + 0.004, 9),
                         'gap_model': c['gap'], 'bypass_fraction': c['bypass']},
                'types': {'A': dsn},
-               'assign': [['A', rr, pp, {'flowrate': c['flow']}]
-                          for rr, pp in S.core_positions(2)],
+               # same type, different flows, the lowest not in the first position
+               'assign': [['A', rr, pp, {'flowrate': c['flow'] * fi}]
+                          for (rr, pp), fi in zip(S.core_positions(2), (1.0, 0.45, 0.8, 0.6, 0.9, 0.7, 0.5))],
                'power': {'asm': {str(i + 1): P for i in range(7)}}}
     f = UNITF[c['unit']]
     if c['unit'] != 'm':
@@ -831,6 +832,20 @@ def _judge_ctor(c, aug, p, r, bad):
     if float(np.max(R.dz)) > min(reqs) + TOL_DZ:
         bad_m('step-exceeds-requirement', 'a step exceeds the smallest requirement',
               float(np.max(R.dz)), min(reqs), TOL_DZ)
+    # the requirement list itself: every assembly's entry must be the limit
+    # that assembly reports when asked on its own (fresh call, same inputs)
+    import dassh
+    for ai, a in enumerate(R.assemblies):
+        own = float(dassh.assembly.calculate_min_dz(a, R.inlet_temp, a._estimated_T_out, R._is_adiabatic)[0])
+        if abs(own - reqs[ai]) > 1e-12 * own:
+            bad('requirement-list-stale', 'step requirement recorded for assembly %d differs from the limit the '
+                'assembly reports for its own flow and temperatures' % ai, reqs[ai], own, 1e-12 * own,
+                'reactor.py:_setup_asm_axial_mesh_req')
+            break
+        if float(np.max(R.dz)) > own + TOL_DZ:
+            bad('step-exceeds-requirement', 'a step exceeds the requirement of assembly %d' % ai,
+                float(np.max(R.dz)), own, TOL_DZ, 'reactor.py:_setup_asm_axial_mesh_req')
+            break
     # binding: the seam driven with the constructor's own inputs
     msgs = []
     o = new_stub(msgs)
